@@ -70,14 +70,17 @@ def handleXml (op : Str) (args : List Str) : Option String :=
       let cfg : Ctl.Cfg := { loopLimit := Num.digitsToNat ll, varLimit := Num.digitsToNat vl, depthLimit := Num.digitsToNat dl }
       let doc := Ctl.parseDoc (toks.filterMap decodeTok)
       let st0 : Ctl.St Nat := { rng := 0, cfg := cfg }
-      let (st, r) := Ctl.processNodes Ctl.simpleEvalr (4000 + 40 * toks.length) st0 doc
+      let (real, st, r) := Ctl.transformDoc Ctl.simpleEvalr (4000 + 40 * toks.length) st0 doc
       some (match r with
         | .error e => joinFields [cs!"err:" ++ e.name.toList, if st.outside then ['1'] else ['0']]
         | .ok (evs, bb) =>
-          let out := if st.realSvg then some evs else Doc.postprocess rcfg evs bb
+          let out := if real then some evs else Doc.postprocess rcfg evs bb
           match out with
           | none => joinFields [cs!"err:RootAttrs", ['0']]
-          | some evs => joinFields ([cs!"ok", if st.outside then ['1'] else ['0']] ++ evs.map encodeEv))
+          | some evs =>
+            let flag := if st.outside then ['1']
+              else if !real && !Doc.postprocessExact rcfg evs bb then ['2'] else ['0']
+            joinFields ([cs!"ok", flag] ++ evs.map encodeEv))
     | _ => none
   else if op == cs!"root_attrs" then
     -- root_attrs border scale style(-) localid(-) bbox(none | x1 y1 x2 y2 as 4 fields) n k v …
